@@ -1,5 +1,7 @@
 """C06 — PUBLISH packets leave in initiation order (comparator + stable sort level; sender level via H-client)."""
 from vlib import *
+import client_check as CC
+import sender_check
 
 H = 2 ** 31
 W = 2 ** 32
@@ -90,6 +92,9 @@ def run(ctx):
             q = parse_queue(rl)
             if o and sort_monitor(q, o[0]) and any(s >= H for _, s in q):
                 ctx.known(f"{f['id']}: {f['what']} [replay {f['replay']}: real stable_sort order {o[0]}]")
+    found = sender_check.run(ctx, 400 if ctx.tier == "quick" else 20000) or found
+    fails = CC.run_scenarios(ctx, "C06", 200 if ctx.tier == "quick" else 5000, steps=60)
+    found = CC.report(ctx, "C06", fails) or found
     report_broken_ties(ctx, found)
     if ctx.tier == "thorough" and not ctx.ties_broken:
         for m, msg in leanchecker(ctx.lean.get("modules", [])):
